@@ -48,6 +48,9 @@ type MSess struct {
 	Buf     map[uint16][]uint64
 	Dropped map[uint16]int
 	BornAt  int
+	BufTaint bool
+	Orphans  map[uint16]bool
+	Stale    map[uint16]int // packets queued for a PDR id whose PDR was removed since
 }
 
 type MNode struct {
@@ -85,6 +88,8 @@ type Model struct {
 	bufEmit map[uint64]*bufPkt
 	ups     []*UpReq
 	nDeliv  int
+	bufCap  int
+	curCtx  *StepCtx
 }
 
 type bufPkt struct {
@@ -137,6 +142,7 @@ type StepCtx struct {
 	pre                                pfcp.VerifState
 	preProj                            map[uint64]string
 	preGroups                          map[time.Duration]int
+	preRules                           map[RuleKey][]Attr
 	t0                                 time.Duration
 
 	N4    []*OutPkt
@@ -155,6 +161,7 @@ type StepCtx struct {
 	Matched  *UpReq
 	Ambiguous bool
 	newUps   []*UpReq
+	bufNotes []*bufPkt
 	expTermr map[uint32]string
 	refVia   map[uint32]string
 	skipURR  map[uint32]bool
@@ -174,6 +181,7 @@ func (s *Sim) mstep(kind string, dg *Dgram, f func()) {
 	s.stepNo++
 	s.bump()
 	ctx := &StepCtx{Kind: kind, Dg: dg, t0: s.since()}
+	s.model.curCtx = ctx
 	ctx.n4From = s.n4.outLen()
 	ctx.gtpuFrom = s.gtpu.outLen()
 	ctx.reqFrom = len(s.kern.reqLog)
@@ -181,6 +189,10 @@ func (s *Sim) mstep(kind string, dg *Dgram, f func()) {
 	ctx.pre = s.srv.VerifState()
 	ctx.preProj = s.projections()
 	ctx.preGroups = s.perioGroups()
+	ctx.preRules = make(map[RuleKey][]Attr, len(s.kern.rules))
+	for k, r := range s.kern.rules {
+		ctx.preRules[k] = r.Attrs
+	}
 	repBefore := s.repTotal
 	f()
 	ctx.N4 = s.n4.outSince(ctx.n4From)
@@ -469,7 +481,7 @@ func (m *Model) onDeliver(ctx *StepCtx) {
 		}
 		x := &MSess{UP: up, CP: in.CPSEID, Node: node, SMF: dg.SMF, Slot: in.Slot, Live: true,
 			Req: map[RuleRef]bool{}, Ever: map[RuleRef]bool{}, Intent: map[RuleRef]*RuleIntent{},
-			PDR: map[uint16]*MPDR{}, URR: map[uint32]*MURR{}, URRInc: map[uint32]int{}, Buf: map[uint16][]uint64{}, Dropped: map[uint16]int{}, BornAt: s.stepNo}
+			PDR: map[uint16]*MPDR{}, URR: map[uint32]*MURR{}, URRInc: map[uint32]int{}, Buf: map[uint16][]uint64{}, Dropped: map[uint16]int{}, BornAt: s.stepNo, Orphans: map[uint16]bool{}, Stale: map[uint16]int{}}
 		ctx.Target = x
 		if up == 0 {
 			return // oracle C04/C08 reports it
@@ -827,13 +839,21 @@ func (m *Model) noteReportForwarded(sr interface{}) {}
 func (m *Model) noteBufferEmitted(seid uint64, pdr uint16, action uint16, tag uint64, b []byte) {
 	p := &bufPkt{tag: tag, seid: seid, pdr: pdr, action: action, b: b, state: "unknown"}
 	m.bufEmit[tag] = p
+	if m.curCtx != nil {
+		m.curCtx.bufNotes = append(m.curCtx.bufNotes, p)
+	}
 	x := m.sess[seid]
 	if x == nil {
 		p.state = "nosession"
 		return
 	}
 	p.sess = x
-	if action&0x4 != 0 { // BUFF
+	if action&0x4 != 0 && !x.Req[RuleRef{"pdr", uint32(pdr)}] {
+		// a notification for a PDR id the session does not have: whatever the UPF does
+		// with it is outside what C13 states (it may hold it)
+		x.Stale[pdr]++
+		p.state = "nopdr"
+	} else if action&0x4 != 0 { // BUFF
 		x.Buf[pdr] = append(x.Buf[pdr], tag)
 		p.state = "queued"
 	} else {
